@@ -119,7 +119,7 @@ class BasicDSG(DSG):
 
     def _choice_sort_key(self, choice_node: CDVNode) -> tuple:
         type_idx = {SelectionChoiceNode: 0, ConnectionChoiceNode: 1, DesignVariableNode: 2}.get(type(choice_node), 3)
-        return type_idx, choice_node.decision_id, getattr(choice_node, 'decision_sort_key', '')
+        return type_idx, choice_node.decision_id, getattr(choice_node, 'decision_sort_key', ''), choice_node.str_context()
 
     def add_edge(self, src: DSGNode, tgt: DSGNode, edge_type: EdgeType = EdgeType.DERIVES):
         """Add a directed edge between some source and target nodes"""
